@@ -18,7 +18,8 @@ def build(reg):
     T = sv_wiring.TE
     return dict(
         targets=[f"{T}:EvolveStateVector.evolve", f"{T}:EvolveStateVector.forward", f"{T}:EvolveDensityMatrix.apply",
-                 f"{sv_wiring.SVIMPL}:SVBackendImpl._evolve_step"],
+                 f"{sv_wiring.SVIMPL}:SVBackendImpl._evolve_step"]
+                + [f"{sv_wiring.SVIMPL}:{l}" for l in sv_wiring.INIT_LABELS],
         not_decided=NOT_DECIDED,
         trusted=["torch.autograd.Function.apply(*args) calls forward(ctx, *args)",
                  "krylov_exp and the operator action H*x / L@x are uninterpreted here (C07, C06)",
